@@ -37,6 +37,8 @@ type Node struct {
 	stderrWriter *bufio.Writer
 	outputWriter *os.File
 	outputReader *os.File
+	outputBuf    *bytes.Buffer
+	outputDone   chan struct{}
 	scriptFile   *os.File
 	done         bool
 	cmdRunning   bool
@@ -136,10 +138,9 @@ func (n *Node) Execute(ctx context.Context) error {
 	n.SetError(runErr)
 	if n.outputReader != nil && n.data.Step.Output != "" {
 		util.LogErr("close pipe writer", n.outputWriter.Close())
-		var buf bytes.Buffer
-		// TODO: Error handling
-		_, _ = io.Copy(&buf, n.outputReader)
-		ret := strings.TrimSpace(buf.String())
+		// The pipe is drained while the command runs (see setupExec).
+		<-n.outputDone
+		ret := strings.TrimSpace(n.outputBuf.String())
 		_ = os.Setenv(n.data.Step.Output, ret)
 		n.data.Step.OutputVariables.Store(
 			n.data.Step.Output,
@@ -211,6 +212,15 @@ func (n *Node) setupExec(ctx context.Context) (executor.Executor, error) {
 			return nil, err
 		}
 		stdout = io.MultiWriter(stdout, n.outputWriter)
+		// Drain the pipe concurrently: an output larger than the pipe
+		// capacity would block the command for ever otherwise.
+		buf, drained, r := &bytes.Buffer{}, make(chan struct{}), n.outputReader
+		n.outputBuf, n.outputDone = buf, drained
+		go func() {
+			// TODO: Error handling
+			_, _ = io.Copy(buf, r)
+			close(drained)
+		}()
 	}
 
 	cmd.SetStdout(stdout)
